@@ -337,6 +337,16 @@ extern "C" int getaddrinfo(const char *node, const char *svc, const struct addri
   else ans("fail");
   return r;
 }
+// TcpEngine::doConnect resolves a NAME on a std::async(std::launch::async) thread; std::async throws std::system_error when the
+// thread cannot be created (EAGAIN at the thread limit).  Only a creation requested from inside an engine handler of the stepped
+// engine (t_in: the harness thread is inside process()) can be faulted; the answer `throw` replaces the getaddrinfo answer (FC02b).
+extern "C" int pthread_create(pthread_t *th, const pthread_attr_t *at, void *(*fn)(void *), void *arg)
+{
+  static auto real = realFn<int (*)(pthread_t *, const pthread_attr_t *, void *(*)(void *), void *)>("pthread_create");
+  std::string c;
+  if (t_in && !g_udpMode && takeInj("pthread_create", c)) { ans("throw"); return EAGAIN; }
+  return real(th, at, fn, arg);
+}
 extern "C" int getsockname(int fd, struct sockaddr *a, socklen_t *l)
 {
   static auto real = realFn<int (*)(int, struct sockaddr *, socklen_t *)>("getsockname");
@@ -494,7 +504,12 @@ struct HTcp : TcpEngine
   }
   bool inlineHs = false; // `!_timerService && handshakeTimeout > 0`: reaching this hook means the comparison said "not expired"
   bool beforeSslHandshake(SessionId, const std::string &) override { if (inlineHs) ans("no"); return hook("hsBefore"); }
-  bool afterSslHandshake(SessionId, bool, int) override { return hook("hsAfter"); }
+  bool afterSslHandshake(SessionId, bool ok, int) override
+  {
+    // `hsAfterOk`: fail the hook of the handshake call that SUCCEEDED (close site hsHookAfterOk), whichever poll that is
+    if (ok && !hookFail.empty() && hookFail.front() == "hsAfterOk") { hookFail.pop_front(); ans("fail"); return false; }
+    return hook("hsAfter");
+  }
   bool beforeSslRead(SessionId) override { return hook("read"); }
   bool beforeSslWrite(SessionId, std::size_t) override { return hook("write"); }
 };
@@ -528,7 +543,7 @@ static const char *codeName(TransportError e)
 static std::string msgClass(const std::string &m)
 {
   static const std::pair<const char *, const char *> fixed[] = {
-    {"shutdown", "shutdown"}, {"closed by app", "app"}, {"Connect timeout", "connectTimeout"},
+    {"getaddrinfo: cannot start resolver thread", "gaiThread"}, {"shutdown", "shutdown"}, {"closed by app", "app"}, {"Connect timeout", "connectTimeout"},
     {"TLS handshake timeout", "hsTimeout"}, {"Write stall timeout", "writeStall"}, {"GC safety-net timeout", "gc"},
     {"peer closed", "fin"}, {"Connection closed by peer (EPOLLHUP/EPOLLERR)", "hup"}, {"TLS peer closed", "tlsClosed"},
     {"write queue overflow", "overflow"}, {"Connection refused to", "refused"}, {"getaddrinfo:", "gai"},
@@ -896,7 +911,6 @@ template <typename E> static void manualStart(E &e)
   e._running.store(true);
   if constexpr (std::is_same<E, HTcp>::value)
   {
-    { std::lock_guard<std::mutex> g(e._cmdMutex); e._cmdsClosed = false; }
     if (!e.initTls()) { std::fprintf(stderr, "c02: initTls failed: %s\n", e.lastError().message.c_str()); std::exit(2); }
   }
   else
@@ -904,7 +918,15 @@ template <typename E> static void manualStart(E &e)
     std::lock_guard<std::mutex> g(e._qmx); e._qClosed = false;
   }
   e._epollFd = ::epoll_create1(EPOLL_CLOEXEC);
-  e._eventFd = ::eventfd(0, EFD_NONBLOCK | EFD_CLOEXEC);
+  if constexpr (std::is_same<E, HTcp>::value)
+  {
+    // since FC05c: the fresh eventfd is published and the queue re-opened in ONE _cmdMutex section (skeleton tcpStart)
+    const int efd = ::eventfd(0, EFD_NONBLOCK | EFD_CLOEXEC);
+    std::lock_guard<std::mutex> g(e._cmdMutex);
+    e._eventFd = efd;
+    e._cmdsClosed = false;
+  }
+  else e._eventFd = ::eventfd(0, EFD_NONBLOCK | EFD_CLOEXEC);
   e._timerFd = ::timerfd_create(CLOCK_MONOTONIC, TFD_NONBLOCK | TFD_CLOEXEC);
   if (e._epollFd < 0 || e._eventFd < 0 || e._timerFd < 0) { std::fprintf(stderr, "c02: cannot create epoll/eventfd/timerfd\n"); std::exit(2); }
   e.addEpoll(e._eventFd, EPOLLIN);
@@ -952,6 +974,44 @@ static void steppedTeardown()
   g_peerKeys.clear();
   { std::lock_guard<std::mutex> g(g_injMx); g_inj.clear(); }
   g_clockOffsetNs.store(0);
+}
+// Review F6(b), on the REAL engine: the fd-tag map is what turns a kernel event into a session.  Invariant checked after every
+// stepped op (between handlers): a session tag points at a session that IS in `_sessions` (pointer identity - never dereferenced
+// before that is known), is not closed, and owns exactly this fd; and every open TCP / client-role UDP session has its tag.
+// A violation (F35: tags of sessions freed by the drain survive a restart) is printed as a `tagbad ...` part: plugin => T3/T0.
+static long g_tagChecks = 0;
+template <typename E, typename TagMap> static std::string tagCheckOf(E &e, TagMap &tags)
+{
+  std::map<const void *, SessionId> live;
+  for (auto &kv2 : e._sessions) live[kv2.second.get()] = kv2.first;
+  std::string bad;
+  std::set<int> tagged;
+  for (auto &kv2 : tags)
+  {
+    ++g_tagChecks;
+    if (!kv2.second || kv2.second->isListener) continue;
+    const void *sp = kv2.second->sess;
+    auto it = live.find(sp);
+    if (it == live.end()) { bad += " fd" + std::to_string(kv2.first) + ":dangling"; continue; }
+    auto *sess = kv2.second->sess;
+    if (sess->closed) bad += " fd" + std::to_string(kv2.first) + ":closed-session-" + std::to_string(it->second);
+    if (sess->fd != kv2.first) bad += " fd" + std::to_string(kv2.first) + ":session-" + std::to_string(it->second) + "-owns-fd" + std::to_string(sess->fd);
+    tagged.insert(kv2.first);
+  }
+  for (auto &kv2 : e._sessions)
+  {
+    auto *sess = kv2.second.get();
+    bool needsTag = !sess->closed;
+    if constexpr (!std::is_same<E, HTcp>::value) needsTag = needsTag && sess->role == Role::ClientConnected;
+    if (needsTag && !tagged.count(sess->fd)) bad += " session-" + std::to_string(kv2.first) + ":untagged";
+  }
+  return bad;
+}
+static void tagCheck()
+{
+  if (!S.alive) return;
+  std::string bad = S.udp ? tagCheckOf(*S.udpE, S.udpE->_tags) : tagCheckOf(*S.tcp, S.tcp->_fdTags);
+  if (!bad.empty()) S.out.push_back("tagbad" + bad);
 }
 static std::string kv(const std::vector<std::string> &t, const std::string &k, const std::string &dflt)
 {
@@ -1074,8 +1134,11 @@ static std::string steppedOp(const std::vector<std::string> &t)
     std::string k;
     for (auto s : S.known) k += (k.empty() ? "" : ",") + std::to_string(s);
     S.out.push_back("end known=" + (k.empty() ? std::string("-") : k) + " stats=" + statsStr());
+    S.out.push_back("tagchecks " + std::to_string(g_tagChecks));
+    g_tagChecks = 0;
   }
   else return "bad-op";
+  tagCheck();
   std::string res;
   for (auto &l : S.out) { if (!res.empty()) res += " ;; "; res += l; }
   return res.empty() ? "-" : res;
@@ -1331,6 +1394,36 @@ static std::string scenario(const std::vector<std::string> &t)
   for (auto &th : ths) th.join();
   g_threadInject.store(false);
   { std::lock_guard<std::mutex> g(g_injMx); g_inj.clear(); }
+  // restart=<k>: the REAL start() on the stopped engine (the stepped harness only replays what start() does), k more runs of
+  // connect / accept traffic, each ended by an orderly stop: ids must keep counting across the restart (T4), every id of every run
+  // gets its one close (T1/T2), the gauge is 0 after each stop (T6)
+  int restarts = std::atoi(kv(t, "restart", "0").c_str());
+  for (int run = 0; run < restarts; ++run)
+  {
+    sc.add('S', 0, "restart", -1);
+    stopping.store(false);
+    if (E->start().isErr()) { sc.add('S', 0, "restartFailed", -1); break; }
+    auto lr2 = E->addListener("127.0.0.1", 0, TlsMode::None);
+    std::uint16_t lport2 = lr2.isOk() ? E->getListenerAddress(lr2.value()).port : 0;
+    S.lports = {lport2};
+    std::uint64_t s2 = seed * 31 + static_cast<std::uint64_t>(run);
+    for (int i = 0; i < 3 + static_cast<int>(splitmix(s2) % 4); ++i)
+    {
+      std::uint64_t r = splitmix(s2);
+      if (r % 4 == 3 && lport2) { if (udp) peerOp({"peer", "usend", std::to_string(r % 2), "0", "8"}); else peerOp({"peer", "connect", "0"}); }
+      else
+      {
+        auto cr = E->connect("127.0.0.1", (r % 4 == 0) ? closedPort : okPort, TlsMode::None);
+        sc.add('R', cr.isOk() ? cr.value() : 0, cr.isOk() ? "1" : "0", -1);
+      }
+      if (!udp) peerOp({"peer", "accept", "0"});
+    }
+    std::this_thread::sleep_for(milliseconds(5 + static_cast<int>(splitmix(s2) % 25)));
+    stopping.store(true);
+    sc.add('S', 0, "begin", -1);
+    E->stop();
+    sc.add('S', 0, "end", cur());
+  }
   auto st = E->getStats();
   std::string res = "scn";
   for (auto &e : sc.log)
@@ -1389,7 +1482,11 @@ static void fanInside(const std::string &where)
   std::vector<std::vector<std::string>> acts;
   for (auto it = range.first; it != range.second; ++it) acts.push_back(it->second);
   F.inside.erase(range.first, range.second);
-  for (auto &a : acts) fanAct(a, 0);
+  // the callback's own fan-out actions first, then the setReadMode / receiveSync calls scripted for it (the two groups touch
+  // disjoint state; the model driver runs them in the same order)
+  auto isWin = [](const std::vector<std::string> &a) { return !a.empty() && (a[0] == "tmode" || a[0] == "trecv" || a[0] == "mode" || a[0] == "recv"); };
+  for (auto &a : acts) if (!isWin(a)) fanAct(a, 0);
+  for (auto &a : acts) if (isWin(a)) fanAct(a, 0);
 }
 static unsigned long long g_fanCounter = 0;
 static void fanObserve(SessionId sid)
@@ -1440,6 +1537,59 @@ static void fanAct(const std::vector<std::string> &a, std::size_t i)
     TransportErrorInfo info{TransportError::PeerClosed, "x"};
     IoScope io(F.fe);
     F.fe->cbs.onClose(sid, info);
+  }
+  else if (v == "tclose" && a.size() > i + 1)
+  {
+    // tclose <sid> : the APPLICATION calls the public Transport::close(sid).  X<sid> = the request reached the engine (nothing else
+    // may happen locally: no callback, no observer removal, no tombstone); then the scripted engine honours it - one close handler
+    // run on the I/O thread, exactly as `close <sid>`.
+    SessionId sid = std::strtoull(a[i + 1].c_str(), nullptr, 10);
+    F.fe->onCloseCall = [](SessionId s) { F.ev.push_back("X" + std::to_string(s)); };
+    bool ok = F.tr->close(sid);
+    F.fe->onCloseCall = nullptr;
+    if (!ok) F.ev.push_back("X" + std::to_string(sid) + "-");
+    TransportErrorInfo info{TransportError::Unknown, "x"};
+    IoScope io(F.fe);
+    F.fe->cbs.onClose(sid, info);
+  }
+  else if (v == "csync" && a.size() > i + 1)
+  {
+    // csync <sid> : the APPLICATION calls Transport::connectSync; the scripted engine hands out <sid> and reports the connect from its
+    // I/O thread while the call waits (review F7, mutant C).  S<sid>+ = connectSync returned ok(<sid>): from now on the application HOLDS
+    // the id, so its close must reach the global callback / observers like any other (the pendingConnects entry must be gone).
+    SessionId sid = std::strtoull(a[i + 1].c_str(), nullptr, 10);
+    F.fe->next = sid;
+    std::thread io;
+    F.fe->onConnectCall = [&io](SessionId s)
+    {
+      io = std::thread([s]
+      {
+        TransportAddress addr{"127.0.0.1", 9};
+        F.fe->cbs.onConnect(s, addr); // blocks on syncMutex until connectSync waits
+      });
+    };
+    auto r = F.tr->connectSync("127.0.0.1", 9, TlsMode::None, milliseconds(3000));
+    F.fe->onConnectCall = nullptr;
+    if (io.joinable()) io.join();
+    F.ev.push_back("S" + std::to_string(sid) + (r.isOk() && r.value() == sid ? "+" : "-"));
+  }
+  else if ((v == "tmode" || v == "trecv") && a.size() > i + 2)
+  {
+    // tmode <sid> s|a|d | trecv <sid> <n> : the same calls as `mode` / `recv`, made on a HELPER thread that is joined before
+    // this returns.  Scripted inside a close callback (`fan inside G tmode 1 a`) it is a COMPLETE application call of another
+    // thread while the I/O thread is inside that callback of the close handler (on the I/O thread itself the call is refused).
+    // F.ev is pushed from the helper while this thread waits in join(): no race.
+    std::vector<std::string> b(a.begin() + static_cast<std::ptrdiff_t>(i), a.end());
+    b[0] = v == "tmode" ? "mode" : "recv";
+    std::string err;
+    std::thread th([&b, &err]
+    {
+      try { fanAct(b, 0); }
+      catch (const std::exception &ex) { err = std::string("throw:") + typeid(ex).name(); }
+      catch (...) { err = "throw:?"; }
+    });
+    th.join();
+    if (!err.empty()) F.ev.push_back(err);
   }
   else if (v == "mode" && a.size() > i + 2)
   {
@@ -1498,13 +1648,14 @@ static std::string fanOp(const std::vector<std::string> &t)
     auto fe = std::make_unique<FanEngine>();
     F.fe = fe.get();
     TransportConfig cfg;
-    // fan reset <globalClose> [<dataCb> [<maxSyncReceiveBuffer> <syncBufferGcThreshold>]] : the global data / connect / accept
-    // callbacks log what Transport delivers
+    // fan reset <globalClose> [<dataCb> [<maxSyncReceiveBuffer> <syncBufferGcThreshold> [<allowReadModeSwitch>]]] : the global
+    // data / connect / accept callbacks log what Transport delivers
     if (t.size() > 5)
     {
       cfg.maxSyncReceiveBuffer = std::strtoul(t[4].c_str(), nullptr, 10);
       cfg.syncBufferGcThreshold = std::strtoul(t[5].c_str(), nullptr, 10);
     }
+    if (t.size() > 6) cfg.allowReadModeSwitch = t[6] == "1";
     F.tr = iora::network::test::TransportEngineInjector::withEngine(std::move(fe), cfg);
     bool global = t.size() > 2 && t[2] == "1";
     bool dataCb = !(t.size() > 3 && t[3] == "0");
